@@ -185,6 +185,20 @@ def check_dataset(case, ctx):
     msg = ops.compare(ra, rb, 0.0, "ds", "ds.spec.%s() vs ds.efth.spec.%s()" % (name, name))
     if msg:
         raise Violation("dataset-accessor", msg)
+    # the same question after the spectra (or the directions) of this very Dataset object were replaced
+    if case["q"] % 2 == 0:
+        ds["efth"] = ds["efth"] * 4.0
+        how = "ds['efth'] replaced"
+    else:
+        ds["dir"] = (ds["dir"] + 90.0) % 360.0
+        how = "ds['dir'] relabelled"
+    with ctx.lib("ds.efth.spec.%s after %s" % (name, how)):
+        ra2 = _result(op, ds.efth, aux)
+    with ctx.lib("ds.spec.%s after %s" % (name, how)):
+        rb2 = _result(op, _DS(ds), aux)
+    msg = ops.compare(ra2, rb2, 0.0, "ds", "ds.spec.%s() vs ds.efth.spec.%s() after %s" % (name, name, how))
+    if msg:
+        raise Violation("dataset-accessor-stale", msg)
     ctx.nt(True)
     ctx.label("op=" + name)
     ctx.show(gen.describe(case["fg"], case["dg"], case["specs"], case["dims"], op=name))
